@@ -677,7 +677,7 @@ SeqSound == (Scope = "seq") => /\ \A i, j \in DOMAIN c.cont : i # j => c.cont[i]
                               /\ \A i \in DOMAIN c.cont : c.cont[i] \in SeqX
 \* the compressed encoder against the encoder: for the string leaves of every unmutated sample, at small lengths on both
 \* sides of the first header-class boundary
-EncCSound == (Scope \in {"typed", "all"} /\ c.mut = <<>> /\ c.sid < SeedBase) =>
+EncCSound == (Scope \in {"typed", "all"} /\ c.mut = <<>> /\ c.sid = 0) =>
    LET p == Parse(c.b) ps == PathSeq(p.it) IN
    \A i \in { j \in DOMAIN ps : j <= 12 /\ At(p.it, ps[j]).k = "s" } : \A n \in {2, 55, 56, 300} :
       /\ Decomp(EncC(Subst(p.it, ps[i], Virt(165, n))), 165) = Enc(Subst(p.it, ps[i], S(Fill(n, 165))))
